@@ -100,10 +100,10 @@ RT = [RU("ttl2", nkeys=2, depth=7), RU("tti2", nkeys=2, depth=7), RU("cap_unit",
       RS("cap1", nkeys=3, depth=6)]
 VQ = [("unsync-small", 120, 40), ("unsync-mid", 30, 120), ("sync-small", 120, 40), ("sync-mid", 30, 120),
       ("sync-eager", 40, 60), ("sync-far", 150, 16), ("sync-burst", 200, 3), ("sync-stale", 600, 0), ("sync-flush", 14, 0), ("sync-grow", 100, 2),
-      ("unsync-batch", 16, 0), ("sync-batch", 2, 0), ("sync-reads", 2, 0), ("unsync-admit", 900, 0), ("sync-admit", 500, 0), ("unsync-exp", 500, 30), ("sync-exp", 120, 30)]
+      ("unsync-batch", 16, 0), ("sync-batch", 2, 0), ("sync-reads", 2, 0), ("sync-evict", 1, 0), ("unsync-admit", 900, 0), ("sync-admit", 500, 0), ("unsync-exp", 500, 30), ("sync-exp", 120, 30)]
 VT = [("unsync-small", 2000, 60), ("unsync-mid", 400, 400), ("sync-small", 2000, 60), ("sync-mid", 400, 400),
       ("sync-eager", 600, 120), ("sync-far", 6000, 20), ("sync-burst", 2500, 4), ("sync-stale", 5000, 0), ("sync-flush", 60, 0), ("sync-grow", 1200, 2),
-      ("unsync-batch", 120, 0), ("sync-batch", 12, 0), ("sync-reads", 12, 0), ("unsync-admit", 9000, 0), ("sync-admit", 9000, 0), ("unsync-exp", 4000, 40), ("sync-exp", 2000, 40)]
+      ("unsync-batch", 120, 0), ("sync-batch", 12, 0), ("sync-reads", 12, 0), ("sync-evict", 8, 0), ("unsync-admit", 9000, 0), ("sync-admit", 9000, 0), ("unsync-exp", 4000, 40), ("sync-exp", 2000, 40)]
 
 QSLICES = {
     "C01": ["cap2", "expiry2", "cap_const2", "s_cap1", "s_ttl_tti"],
@@ -934,9 +934,9 @@ def run_c15(ctx, plan):
 # the concurrent cache under several threads (modes S and F)
 
 CONC_PROGS = {"ii": 2, "ii2": 2, "ixi": 2, "upd": 2, "rej": 2, "syncs": 2, "ia": 2, "wgt": 2, "xget": 2,
-              "ttl": 2, "tti": 2, "three": 3, "three2": 3, "burst": 2, "ttix": 2, "grow": 2, "iax": 2, "farw": 2, "farx": 2, "iasy": 2,
+              "ttl": 2, "tti": 2, "three": 3, "three2": 3, "burst": 2, "ttix": 2, "grow": 2, "iax": 2, "farw": 2, "farx": 2, "iasy": 2, "xaxa": 2,
               "all_unit": 2, "all_wgt": 2, "all_exp": 2}
-CONC_QUICK = ["ii", "upd", "rej", "ixi", "wgt", "xget", "burst", "ttix", "grow", "iax", "farx", "iasy"]
+CONC_QUICK = ["ii", "upd", "rej", "ixi", "wgt", "xget", "burst", "ttix", "grow", "iax", "farx", "iasy", "xaxa"]
 CONC_LIGHT = ["ii", "rej", "syncs", "grow"]
 # programs replayed once more with scaled queues (flush point, read slots, write slots): small programs
 # then reach a full queue, the writers' retry loop and maintenance triggered by the flush point
